@@ -257,8 +257,38 @@ pub fn cpu_time_s() -> f64 {
     (ut + st) / 100.0
 }
 
+static WATCH_CASE: std::sync::atomic::AtomicU64 = std::sync::atomic::AtomicU64::new(u64::MAX);
+static WATCH_START_MS: std::sync::atomic::AtomicU64 = std::sync::atomic::AtomicU64::new(0);
+
+fn now_ms() -> u64 {
+    std::time::SystemTime::now().duration_since(std::time::UNIX_EPOCH).map(|d| d.as_millis() as u64).unwrap_or(0)
+}
+
+/// Per-case wall-clock watchdog: a case exceeding `budget_s` makes the process exit with code 3
+/// after noting the case in `<progress>.hang`; the supervisor re-runs that case alone with a much
+/// larger budget before calling it a hang.
+fn spawn_watchdog(budget_s: f64, progress: Option<String>) {
+    std::thread::spawn(move || loop {
+        std::thread::sleep(std::time::Duration::from_millis(200));
+        let c = WATCH_CASE.load(std::sync::atomic::Ordering::SeqCst);
+        if c == u64::MAX {
+            continue;
+        }
+        let started = WATCH_START_MS.load(std::sync::atomic::Ordering::SeqCst);
+        if now_ms().saturating_sub(started) as f64 / 1000.0 > budget_s {
+            if let Some(p) = &progress {
+                let _ = std::fs::write(format!("{p}.hang"), format!("{c}\n"));
+            }
+            eprintln!("WATCHDOG case {c} exceeded {budget_s} s");
+            std::process::exit(3);
+        }
+    });
+}
+
 pub fn run_cases(args: &Args, salt: u64, mut f: impl FnMut(&mut Case)) -> i32 {
     install_panic_hook();
+    let hang_budget: f64 = args.extra.get("hang-budget").and_then(|v| v.parse().ok()).unwrap_or(90.0);
+    spawn_watchdog(hang_budget, args.progress.clone());
     let t0 = Instant::now();
     let mut rec = Recorder {
         prop: args.prop.clone(),
@@ -295,6 +325,8 @@ pub fn run_cases(args: &Args, salt: u64, mut f: impl FnMut(&mut Case)) -> i32 {
             let _ = p.write_at(format!("{:>20}\n", idx).as_bytes(), 0);
         }
         last_idx = Some(idx);
+        WATCH_START_MS.store(now_ms(), std::sync::atomic::Ordering::SeqCst);
+        WATCH_CASE.store(idx, std::sync::atomic::Ordering::SeqCst);
         let rng = Rng::derive(args.seed ^ salt, idx);
         let mut case = Case {
             idx,
@@ -316,11 +348,15 @@ pub fn run_cases(args: &Args, salt: u64, mut f: impl FnMut(&mut Case)) -> i32 {
             case.input.take(),
             case.violated,
         );
+        WATCH_CASE.store(u64::MAX, std::sync::atomic::Ordering::SeqCst);
         rec.evaluations += 1;
         match r {
             Ok(()) => {}
             Err((loc, msg)) => {
-                if is_repo_location(&loc) {
+                if is_repo_location(&loc) && args.extra.get("ignore-panics").map_or(false, |v| v == "1") {
+                    // sanitizer stages: panics are judged by C01, not here
+                    *rec.obs.entry("decoder_panics_not_judged_here".to_string()).or_insert(0) += 1;
+                } else if is_repo_location(&loc) {
                     rec.violations.push(Violation {
                         case: idx,
                         sig: format!("panic@{}", loc.trim_start_matches("/repo/")),
